@@ -31,6 +31,8 @@ pub enum Step {
     CompileBare { src: usize },
     /// feed `src` to a brand-new standard-library scope; the scope is dropped
     CompileFresh { src: usize },
+    /// replace the job's compilation scope by a standard-library scope compiled now
+    NewStdScope,
     /// create the runtime and evaluate all top-level bindings
     Instantiate,
     /// dump a top-level binding
